@@ -49,7 +49,11 @@ package ice
 //@   props C12
 //@   site call removeAddress#1 assert previous-owner-loses-exactly-this-binding: arg0 == existing && arg1 == addr && existing == old(m.addressMap[addr])
 //@   site call removeAddress#1 assert the-owner-of-a-binding-keeps-listing-it: existing != conn
-//@   ensures last-writer-owns-the-address: !old(closed(m.closedChan)) && m.addressMap != nil ==> has(m.addressMap, addr) && m.addressMap[addr] == conn
+//@   ghostvar rem bool = false
+//@   site call isRemoved#1 assert asks-the-connection-that-wants-the-binding: arg0 == conn
+//@   site call isRemoved#1 ghost rem := result
+//@   ensures last-writer-owns-the-address: !old(closed(m.closedChan)) && m.addressMap != nil && !rem ==> has(m.addressMap, addr) && m.addressMap[addr] == conn
+//@   ensures a-connection-taken-out-of-the-mux-binds-no-address-any-more: rem ==> has(m.addressMap, addr) == old(has(m.addressMap, addr)) && m.addressMap[addr] == old(m.addressMap[addr])
 //@   ensures closed-mux-registers-nothing: old(closed(m.closedChan)) ==> unchangedExcept()
 
 //@ spec macro listsAddr(c *udpMuxedConn, addr netip.AddrPort) = (exists i int :: 0 <= i && i < len(c.addresses) && c.addresses[i] == addr)
@@ -58,6 +62,18 @@ package ice
 //@   opt nosafety
 //@   modifies c.mu
 //@   ensures says-whether-the-address-is-listed: result == listsAddr(c, addr)
+// The removed mark is set once (under the connection's lock) and never cleared.
+//@ func (*udpMuxedConn).isRemoved
+//@   props C12
+//@   opt nosafety
+//@   modifies c.mu
+//@   ensures reports-the-mark: result == c.removed
+//@ func (*udpMuxedConn).markRemoved
+//@   props C12
+//@   opt nosafety
+//@   modifies c.mu, c.removed
+//@   ensures marked: c.removed
+//@ enumerate C12 stores ice.udpMuxedConn.removed in (*udpMuxedConn).markRemoved
 //@ func (*udpMuxedConn).removeAddress
 //@   props C12
 //@   opt nosafety
@@ -85,10 +101,11 @@ package ice
 
 //@ func (*UDPMuxDefault).RemoveConnByUfrag
 //@   props C12
-//@   modifies fam:M_string_*, fam:M_netip.AddrPort_*
+//@   modifies fam:M_string_*, fam:M_netip.AddrPort_*, fam:H_ice.udpMuxedConn.removed, fam:H_ice.udpMuxedConn.mu
 //@   requires m.connsIPv4 != nil && m.connsIPv6 != nil
 //@   ensures no-longer-registered-in-either-family: !has(m.connsIPv4, ufrag) && !has(m.connsIPv6, ufrag)
 //@   site call getAddresses#1 assert bindings-of-each-removed-conn: arg0 == c
+//@   site call markRemoved#1 assert every-removed-connection-is-marked-before-its-bindings-are-cleared: arg0 == c
 //@   site call delete#3 assert clears-every-address-binding: arg0 == m.addressMap && arg1 == addr
 
 // The close watcher started by GetConn for every connection it creates: once the
@@ -233,7 +250,29 @@ package ice
 //@ func (*UniversalUDPMuxDefault).GetConnForURL
 //@   props C12
 //@   opt nosafety
-//@   site call GetConn#1 assert per-url-connection-on-its-own-mux: arg0 == m.UDPMuxDefault && arg2 == addr
+//@   site call GetConn#1 assert per-url-connection-on-its-own-mux: arg0 == m.UDPMuxDefault && arg1 == key && arg2 == addr
+//@   ghostvar listed bool = false
+//@   site call Contains#1 assert looks-the-key-up-in-the-list-of-this-ufrag: arg1 == key
+//@   site call Contains#1 ghost listed := result
+//@   site call append#1 assert remembers-the-key-the-connection-was-registered-under: len(arg1) == 1 && arg1[0] == key
+//@   site call append#1 ghost listed := true
+//@   ensures a-connection-handed-out-is-listed-for-removal-under-its-ufrag: result1 == nil ==> listed
+
+// Removing a ufrag removes its plain connection and every per-URL connection GetConnForURL registered for it
+// (they live in the inner mux under ufrag+url, a key RemoveConnByUfrag(ufrag) alone never looks up).
+//@ func (*UniversalUDPMuxDefault).RemoveConnByUfrag
+//@   props C12
+//@   opt nosafety
+//@   requires m.UDPMuxDefault != nil && m.UDPMuxDefault.connsIPv4 != nil && m.UDPMuxDefault.connsIPv6 != nil
+//@   ghostvar removedKeys int = 0
+//@   ghostvar listedN int = 0
+//@   site call Lock#1 ghost after listedN := len(m.urlKeys[ufrag])
+//@   site call Unlock#1 assert the-list-of-the-ufrag-is-dropped-with-it: !has(m.urlKeys, ufrag) && len(keys) == listedN
+//@   site call RemoveConnByUfrag#1 assert removes-the-plain-connection-of-the-ufrag: arg0 == m.UDPMuxDefault && arg1 == ufrag
+//@   site call RemoveConnByUfrag#2 assert removes-each-per-url-connection-of-the-ufrag: arg0 == m.UDPMuxDefault && arg1 == key
+//@   site call RemoveConnByUfrag#2 ghost removedKeys := removedKeys + 1
+//@   loop 1 invariant every-listed-key-so-far-was-removed: removedKeys == rangeindex + 1 && rangeindex + 1 <= len(keys) && m.UDPMuxDefault.connsIPv4 != nil && m.UDPMuxDefault.connsIPv6 != nil
+//@   ensures every-per-url-connection-listed-for-the-ufrag-is-removed: removedKeys == listedN
 
 // The universal mux looks at STUN responses from its STUN servers on their way to the receive loop, but it
 // never consumes a datagram: every call performs exactly one read of the socket into the caller's buffer and
@@ -261,17 +300,24 @@ package ice
 
 // A handle is handed out only on a connection that was just created or was found open: a connection whose last
 // handle was closed stays registered until its watcher runs, and must not be handed out again meanwhile.
+// "Found open" alone is a check-then-act against the Close of the last handle, which runs without the mux lock
+// (it drops the count to zero and only then closes the connection): the evidence that survives that
+// interleaving is a reference retained while the count was still positive (retainShared), not the closed flag.
 //@ func (*UDPMuxDefault).GetConn
 //@   props C12 C13
 //@   opt nosafety
 //@   ghostvar created bool = false
 //@   ghostvar foundOpen bool = false
+//@   ghostvar retained bool = false
 //@   site call isClosed#1 ghost foundOpen := !result
+//@   site call retainShared#1 assume reference-counter-not-exhausted: muxedConn.refs < 2147483647
+//@   site call retainShared#1 assert retains-a-reference-of-the-connection-found: *arg0 == muxedConn.refs && foundOpen
+//@   site call retainShared#1 ghost retained := result
 //@   site call createMuxedConn#1 ghost created := true
 //@   site call newSharedAddrPortConn#1 assume reference-counter-not-exhausted: muxedConn.refs < 2147483647
 //@   site call newSharedPacketConn#1 assume reference-counter-not-exhausted: muxedConn.refs < 2147483647
-//@   site call newSharedAddrPortConn#1 assert a-handle-is-handed-out-only-on-an-open-connection: (created || foundOpen) && arg0 == muxedConn
-//@   site call newSharedPacketConn#1 assert a-handle-is-handed-out-only-on-an-open-connection: (created || foundOpen) && arg0.payload == muxedConn
+//@   site call newSharedAddrPortConn#1 assert a-handle-is-handed-out-only-on-a-connection-just-created-or-kept-alive-by-a-retained-reference: (created || (foundOpen && retained)) && arg0 == muxedConn
+//@   site call newSharedPacketConn#1 assert a-handle-is-handed-out-only-on-a-connection-just-created-or-kept-alive-by-a-retained-reference: (created || (foundOpen && retained)) && arg0.payload == muxedConn
 
 // Closing the mux (the body runs once): every registered connection of both families is closed, both tables
 // are replaced by empty ones, the closed channel is closed and the shared socket is closed, in that order
